@@ -47,6 +47,15 @@ Theorem C11_invariant_initial : CInv (m_init, m_init, []).
 Proof. exact CInv_init. Qed.
 Print Assumptions C11_invariant_initial.
 
+(* ... and so does every COHERENT PAIR under an empty handle table ("starting from any coherent (base, cache) pair"):
+   both layers well-formed (WF: reachable by well-formed programs, C01), the directories of the base empty
+   [dirs_empty_b, computable], each name of the cache layer a name of the base of the same kind with the same
+   content [LayerInBase] *)
+Theorem C11_invariant_coherent_pair :
+  forall sb sl : mst, WF sb -> WF sl -> dirs_empty_b sb = true -> LayerInBase (sb, sl, []) -> CInv (sb, sl, []).
+Proof. exact CInv_of_coherent. Qed.
+Print Assumptions C11_invariant_coherent_pair.
+
 (* EVERY well-formed call through the cache preserves it: all 25 operations (Create, Mkdir, MkdirAll, Open, OpenFile
    with every well-formed flag word, Remove, RemoveAll, Rename incl. whole subtrees and into directories the
    cache does not hold yet, Stat, Chmod, Chown, Chtimes, and the 13 handle methods on every kind of slot), every
@@ -84,6 +93,27 @@ Theorem C11_coherent_from_empty :
   LayerInBase (crun dur (m_init, m_init, []) steps).
 Proof. exact cache_coherent_from_empty. Qed.
 Print Assumptions C11_coherent_from_empty.
+
+(* the second clause of the property: "reading any file through the caching filesystem returns what the base
+   holds".  In every state of the invariant, for every name (any spelling) that denotes a regular file of the
+   base, every cache duration and every time: Open through the cache returns a fresh slot holding a layer-only,
+   read-only handle at offset 0 on a regular file of the layer whose bytes are the base's (served from the cache
+   on a hit, copied first on a miss or a stale entry — the copy cannot fail) ... *)
+Theorem C11_read_returns_base :
+  forall (dur now : Z) (sb sl : mst) (tbl : list chandle) (p : str) (fb : nat) (nb : node),
+  CInv (sb, sl, tbl) ->
+  lookup sb (normalize_path p) = Some fb -> get_node sb fb = Some nb -> ndir nb = false ->
+  serves (fst (cache_step m_step m_step dur now (sb, sl, tbl) (Open p)))
+         (snd (cache_step m_step m_step dur now (sb, sl, tbl) (Open p))) tbl (ndata nb).
+Proof. exact read_through_cache. Qed.
+Print Assumptions C11_read_returns_base.
+(* ... and the first Read on that slot returns the base's bytes, as many as the buffer takes *)
+Theorem C11_read_after_open :
+  forall (dur now : Z) (st' : mst * mst * list chandle) (r : res) (tbl : list chandle) (d : bytes) (n : Z),
+  serves st' r tbl d -> d <> [] -> 0 < n ->
+  snd (cache_step m_step m_step dur now st' (HRead (length tbl) n)) = RData (slice d 0 (Z.min n (zlen d))) None.
+Proof. exact read_after_open. Qed.
+Print Assumptions C11_read_after_open.
 
 (* the one-step lemma the partial theorem consisted of, for ANY state (not necessarily one that satisfies the
    invariant): Coh is preserved by a handle method on slot i when the other slots are aligned with it *)
